@@ -38,6 +38,8 @@ var allSpecs = []HarnessSpec{
 	{Prop: "C08", Pkg: "taskfile/ast", Func: "ZZ_C08_DeepCopy", Replay: "native"},
 	{Prop: "C08", Pkg: "taskfile/ast", Func: "ZZ_C08_Merge", Replay: "native"},
 	{Prop: "C08", Pkg: "taskfile/ast", Func: "ZZ_C08_IncludedTwice", Replay: "native", Twin: true},
+	{Prop: "C09", Pkg: "taskfile/ast", Func: "ZZ_C09_Merge", Tag: "siblings", POR: true, Replay: "native", Twin: true, Params: map[string]int{"diamond": 0, "__maporder": 1, "__coarse": 1}},
+	{Prop: "C09", Pkg: "taskfile/ast", Func: "ZZ_C09_Merge", Tag: "diamond", POR: true, Replay: "native", Tiers: "thorough", Params: map[string]int{"diamond": 1, "__maporder": 1, "__coarse": 1}},
 	{Prop: "C10", Pkg: "", Func: "ZZ_C10_Vars", Replay: "native", Twin: true},
 	{Prop: "C10", Pkg: "", Func: "ZZ_C10_Env", Replay: "native", Twin: true},
 	{Prop: "C15", Pkg: "", Func: "ZZ_C15_Resolve", Replay: "native", Twin: true, Params: map[string]int{"tasks": 2, "namelen": 3, "reqlen": 4}, TParams: map[string]int{"tasks": 3, "namelen": 3, "reqlen": 4}},
@@ -49,6 +51,13 @@ var allSpecs = []HarnessSpec{
 	{Prop: "C16", Pkg: "taskfile", Func: "ZZ_C16_Snippet", Replay: "native", Twin: true},
 	{Prop: "C17", Pkg: "internal/output", Func: "ZZ_C17_Group", POR: true, Replay: "native", Twin: true, Params: map[string]int{"maxchunks": 1, "__coarse": 1}, TParams: map[string]int{"maxchunks": 2}},
 	{Prop: "C17", Pkg: "internal/output", Func: "ZZ_C17_Prefixed", POR: true, Replay: "native", Twin: true, Params: map[string]int{"maxchunks": 1, "__coarse": 1}, TParams: map[string]int{"maxchunks": 2}},
+	{Prop: "C20", Pkg: "taskfile", Func: "ZZ_C20_Cache", Replay: "native", Twin: true, Params: map[string]int{"steps": 2}, TParams: map[string]int{"steps": 3}},
+	{Prop: "C20", Pkg: "taskfile", Func: "ZZ_C20_Insecure", Replay: "native", Twin: true},
+	{Prop: "C18", Func: "ZZ_C18_Kernel", Tag: "shape=2", POR: true, Replay: "native-race", Twin: true, Params: map[string]int{"shape": 2, "failing": 1, "__coarse": 1, "__race": 1}},
+	{Prop: "C18", Func: "ZZ_C18_Kernel", Tag: "shape=1", POR: true, Replay: "native-race", Params: map[string]int{"shape": 1, "failing": 1, "__coarse": 1, "__race": 1}},
+	{Prop: "C18", Func: "ZZ_C18_Compile", POR: true, Replay: "native-race", Twin: true, Params: map[string]int{"__coarse": 1, "__race": 1}},
+	{Prop: "C18", Pkg: "internal/output", Func: "ZZ_C17_Prefixed", Tag: "race", POR: true, Replay: "native-race", Params: map[string]int{"maxchunks": 1, "__coarse": 1, "__race": 1}},
+	{Prop: "C18", Pkg: "internal/output", Func: "ZZ_C17_Group", Tag: "race", POR: true, Replay: "native-race", Params: map[string]int{"maxchunks": 1, "__coarse": 1, "__race": 1}},
 	{Prop: "C19", Pkg: "args", Func: "ZZ_C19_Get", Replay: "native", Twin: true},
 	{Prop: "C19", Pkg: "args", Func: "ZZ_C19_Parse", Replay: "native", Twin: true},
 	{Prop: "C19", Pkg: "args", Func: "ZZ_C19_Dialect", Replay: "native", Twin: true},
